@@ -294,11 +294,9 @@ func (r *rend) stmt(s *N) {
 	case "printg":
 		r.line("fmt.Println(\"g\", g0, g1, t.a, t.b, arr[0], arr[1])")
 	case "discard":
-		if s.E.K == "clo" {
-			r.line("_ = %s", Expr(s.E))
-		} else {
-			r.line("%s", Expr(s.E))
-		}
+		r.line("%s", Expr(s.E))
+	case "blankcall":
+		r.line("_ = %s", Expr(s.E))
 	case "cs":
 		var as []string
 		for _, a := range s.Args {
@@ -319,8 +317,9 @@ func (r *rend) stmt(s *N) {
 		r.line("}")
 	case "for":
 		var old string
-		var had bool
+		var had, set bool
 		if s.Lab != "" && usesLabel(s.Body, s.Lab) {
+			set = true
 			r.nlab++
 			if r.labs == nil {
 				r.labs = map[string]string{}
@@ -334,10 +333,12 @@ func (r *rend) stmt(s *N) {
 		r.block(s.Body)
 		r.ind--
 		r.line("}")
-		if had {
-			r.labs[s.Lab] = old
-		} else {
-			delete(r.labs, s.Lab)
+		if set {
+			if had {
+				r.labs[s.Lab] = old
+			} else {
+				delete(r.labs, s.Lab)
+			}
 		}
 	case "switch":
 		r.line("switch %s {", Expr(s.Tag))
